@@ -1,9 +1,11 @@
 //! C06: the dictionary compiler is total and never emits an invalid dictionary.
 //!
-//! Every case is one (matrix text, lexicon CSV bytes, pipeline options) triple.  The real
-//! `DictBuilder` is run under `catch_unwind` (read_conn -> read_lexicon -> resolve -> compile),
-//! the CSV is split into records by the real `csv` crate with the reader options of
-//! `LexiconReader::read_bytes`, and the records go to the Lean model on the case line.
+//! Every case is a sequence of calls on one `DictBuilder` (`read_conn` of a matrix text,
+//! `read_lexicon` of CSV bytes, `resolve`; usually read_conn -> read_lexicon -> resolve, but also
+//! several lexicon parts with a `resolve` after none/some/all of them, `read_conn` late or twice)
+//! followed by `compile`.  The real builder is run under `catch_unwind`, every CSV text is split
+//! into records by the real `csv` crate with the reader options of `LexiconReader::read_bytes`,
+//! and the records go to the Lean model on the case line.
 //! Oracle (independent of the model): no panic; a success must be a valid dictionary
 //! (own walk over the binary format + load + trie lookups + tokenisation in modes A/B/C);
 //! a sink that fails at byte k < len must never yield success.
@@ -58,6 +60,23 @@ pub fn probe_variant() -> String {
     let d4 = index_c.contains("trie_entries.is_empty()");
     let d5 = lex_c.contains("surface.contains('\\0')");
     [d1, d2, d3, d4, d5].iter().map(|&b| if b { '1' } else { '0' }).collect()
+}
+
+/// handling of the builder's `resolved` flag: "fix" when `DictBuilder::read_lexicon` clears it
+/// (new entries may carry unresolved inline splits), "cur" when only `resolve` touches it
+pub fn probe_resolved_flag() -> &'static str {
+    let src = std::fs::read_to_string(format!("{}/src/dic/build/mod.rs", repo_src())).unwrap_or_default();
+    let code: String = src.lines().map(|l| l.split("//").next().unwrap_or("")).collect::<Vec<_>>().join("\n");
+    let c: String = code.chars().filter(|c| !c.is_whitespace()).collect();
+    let body = match c.find("pubfnread_lexicon") {
+        Some(a) => {
+            let rest = &c[a + 1..];
+            let end = rest.find("pubfn").unwrap_or(rest.len());
+            rest[..end].to_string()
+        }
+        None => String::new(),
+    };
+    if body.contains("self.resolved=false") { "fix" } else { "cur" }
 }
 
 // ---------------------------------------------------------------------------------------------
@@ -118,23 +137,52 @@ impl Write for FailingWriter {
 // ---------------------------------------------------------------------------------------------
 // cases
 
+/// one call on the builder before `compile`
+#[derive(Clone, Debug, PartialEq)]
+pub enum Op {
+    Conn(Vec<u8>),
+    Lex(Vec<u8>),
+    Resolve,
+}
+
 #[derive(Clone)]
 pub struct Case {
     pub conn: Option<Vec<u8>>,
     pub csv: Vec<u8>,
     pub resolve: bool,
+    /// the calls on the builder; None = the usual pipeline read_conn(conn)? -> read_lexicon(csv) -> resolve()?
+    pub ops: Option<Vec<Op>>,
     pub desc: String,
     pub user: bool,
     /// sink offsets to try: None = none, Some(vec![]) = all offsets 0..=len+1
     pub ks: Option<Vec<usize>>,
+    /// call `compile` a second time on the same builder and compare the bytes
+    pub twice: bool,
     pub tag: String,
+}
+
+impl Case {
+    pub fn ops(&self) -> Vec<Op> {
+        match &self.ops {
+            Some(o) => o.clone(),
+            None => {
+                let mut v = vec![];
+                if let Some(m) = &self.conn { v.push(Op::Conn(m.clone())); }
+                v.push(Op::Lex(self.csv.clone()));
+                if self.resolve { v.push(Op::Resolve); }
+                v
+            }
+        }
+    }
 }
 
 #[derive(Clone, Debug, PartialEq)]
 enum Out {
-    Ok { bytes: Vec<u8>, len: usize, res: usize },
-    Err { stage: &'static str, kind: String, line: Option<usize> },
-    Panic { stage: &'static str, msg: String },
+    /// `again`: what a second `compile` on the same builder did differently (None = nothing / not tried)
+    Ok { bytes: Vec<u8>, len: usize, res: usize, again: Option<String> },
+    /// `at` = position of the failing call (number of calls = `compile`)
+    Err { stage: &'static str, at: usize, kind: String, line: Option<usize> },
+    Panic { stage: &'static str, at: usize, msg: String },
 }
 
 fn failure_name(c: &BuildFailure) -> String {
@@ -176,34 +224,52 @@ const EPOCH: u64 = 1_600_000_000;
 /// the real pipeline; `sink` = Some((k, style)) writes into a sink that fails after k bytes
 fn run_pipeline(c: &Case, system: Option<&JapaneseDictionary>, sink: Option<(usize, usize)>) -> Out {
     let stage: Cell<&'static str> = Cell::new("conn");
-    let r = catch(|| -> Result<(Vec<u8>, usize, usize), (String, Option<usize>)> {
+    let at: Cell<usize> = Cell::new(0);
+    let ops = c.ops();
+    let r = catch(|| -> Result<(Vec<u8>, usize, usize, Option<String>), (String, Option<usize>)> {
         macro_rules! body {
             ($b:ident) => {{
                 $b.set_compile_time(std::time::UNIX_EPOCH + std::time::Duration::from_secs(EPOCH));
                 $b.set_description(c.desc.clone());
-                if let Some(m) = &c.conn {
-                    stage.set("conn");
-                    $b.read_conn(&m[..]).map_err(|e| err_of(&e))?;
-                }
-                stage.set("lex");
-                $b.read_lexicon(&c.csv[..]).map_err(|e| err_of(&e))?;
                 let mut res = 0;
-                if c.resolve {
-                    stage.set("resolve");
-                    res = $b.resolve().map_err(|e| err_of(&e))?;
+                for (i, op) in ops.iter().enumerate() {
+                    at.set(i);
+                    match op {
+                        Op::Conn(m) => {
+                            stage.set("conn");
+                            $b.read_conn(&m[..]).map_err(|e| err_of(&e))?;
+                        }
+                        Op::Lex(d) => {
+                            stage.set("lex");
+                            $b.read_lexicon(&d[..]).map_err(|e| err_of(&e))?;
+                        }
+                        Op::Resolve => {
+                            stage.set("resolve");
+                            res += $b.resolve().map_err(|e| err_of(&e))?;
+                        }
+                    }
                 }
+                at.set(ops.len());
                 stage.set("compile");
                 match sink {
                     None => {
                         let mut out = vec![];
                         $b.compile(&mut out).map_err(|e| err_of(&e))?;
                         let n = out.len();
-                        Ok((out, n, res))
+                        let mut again = None;
+                        if c.twice {
+                            let mut out2 = vec![];
+                            match $b.compile(&mut out2) {
+                                Err(e) => { again = Some(format!("the second compile failed: {:?}", err_of(&e))); }
+                                Ok(()) => if out2 != out { again = Some(format!("the second compile wrote {} bytes that differ from the {} of the first", out2.len(), n)); }
+                            }
+                        }
+                        Ok((out, n, res, again))
                     }
                     Some((k, style)) => {
                         let mut w = FailingWriter { left: k, style, failed: false };
                         $b.compile(&mut w).map_err(|e| err_of(&e))?;
-                        Ok((vec![], k.saturating_sub(w.left), res))
+                        Ok((vec![], k.saturating_sub(w.left), res, None))
                     }
                 }
             }};
@@ -220,9 +286,9 @@ fn run_pipeline(c: &Case, system: Option<&JapaneseDictionary>, sink: Option<(usi
         }
     });
     match r {
-        Err(msg) => Out::Panic { stage: stage.get(), msg },
-        Ok(Err((kind, line))) => Out::Err { stage: stage.get(), kind, line },
-        Ok(Ok((bytes, len, res))) => Out::Ok { bytes, len, res },
+        Err(msg) => Out::Panic { stage: stage.get(), at: at.get(), msg },
+        Ok(Err((kind, line))) => Out::Err { stage: stage.get(), at: at.get(), kind, line },
+        Ok(Ok((bytes, len, res, again))) => Out::Ok { bytes, len, res, again },
     }
 }
 
@@ -443,6 +509,15 @@ fn split_csv(data: &[u8]) -> Recs {
     out
 }
 
+/// does a split field contain a unit that is not a word-id literal (`^U?\\d+$`), i.e. an inline unit?
+fn has_inline_unit(field: &str) -> bool {
+    if field.is_empty() || field == "*" { return false; }
+    field.split('/').any(|u| {
+        let d = u.strip_prefix('U').unwrap_or(u);
+        d.is_empty() || !d.chars().all(|c| c.is_ascii_digit() || is_nd(c))
+    })
+}
+
 fn is_nd(c: char) -> bool {
     thread_local! { static ND: regex::Regex = regex::Regex::new(r"^\d$").unwrap(); }
     let mut b = [0u8; 4];
@@ -652,7 +727,7 @@ fn malform_rows(rng: &mut Rng, rows: &mut Vec<Row>, nl: usize, nr: usize) -> &'s
         13 => { let s = junk_splits(rng, rows); rows[i][16] = s; if rng.chance(2, 3) { rows[i][14] = "C".into(); } "split-b" }
         14 => { rows[i][17] = join((0..rng.range(1, 3)).map(|_| junk_wid(rng, n)), "/"); "word-structure" }
         15 => { rows[i][18] = junk_syn(rng); "synonyms" }
-        16 => { for r in rows.iter_mut() { r[1] = "-1".into(); if rng.chance(1, 2) { r[2] = "-1".into(); } } "no-indexable-row" }
+        16 => { for r in rows.iter_mut() { if r.len() < 3 { continue; } r[1] = "-1".into(); if rng.chance(1, 2) { r[2] = "-1".into(); } } "no-indexable-row" }
         17 => { rows.clear(); "no-rows" }
         18 => { rows[i][0] = "".into(); "empty-surface" }
         19 => { rows[i][0] = (*rng.pick(&["\\u0000", "a\\u{0}", "\u{0}", "あ\u{0}い"])).to_string(); "nul-surface" }
@@ -767,7 +842,7 @@ fn directed(i: usize) -> Option<Case> {
     };
     let m22 = "2 2\n0 0 1\n0 1 2\n1 0 3\n1 1 4\n";
     let base = |tag: &str, conn: &str, rows: Vec<Row>| Case {
-        conn: Some(conn.as_bytes().to_vec()), csv: csv_bytes(&rows), resolve: true, desc: "verif".into(), user: false, ks: None, tag: tag.into(),
+        conn: Some(conn.as_bytes().to_vec()), csv: csv_bytes(&rows), resolve: true, ops: None, desc: "verif".into(), user: false, ks: None, twice: false, tag: tag.into(),
     };
     let two = vec![row("あ", 0, 0), row("い", 1, 1)];
     Some(match i {
@@ -816,14 +891,167 @@ fn directed(i: usize) -> Option<Case> {
         37 => base("right-negative-not-indexed", m22, vec![row("あ", -1, -7), row("い", 0, 0)]),
         38 => base("left-eq-size", m22, vec![row("あ", 2, 0)]),
         39 => base("right-eq-size", m22, vec![row("あ", 0, 2)]),
+        // ---- several calls on one builder (lexicon parts, resolve in between, read_conn late / twice)
+        40..=57 => {
+            let m11 = "1 1\n0 0 0\n";
+            let inl = |s: &str| format!("{},名詞,普通名詞,一般,*,*,*,{}", s, s);
+            let comp = |s: &str, units: &[&str]| -> Row { let mut r = row(s, 0, 0); r[14] = "C".into(); r[15] = units.iter().map(|u| inl(u)).collect::<Vec<_>>().join("/"); r };
+            let lex = |rows: Vec<Row>| Op::Lex(csv_bytes(&rows));
+            let conn = |m: &str| Op::Conn(m.as_bytes().to_vec());
+            let mk = |tag: &str, ops: Vec<Op>| { let mut c = base(tag, m11, vec![]); c.ops = Some(ops); c };
+            let first = vec![row("あ", 0, 0), comp("ああ", &["あ", "あ"])];
+            match i {
+                // the witness: resolve() sets `resolved`, the second read_lexicon brings new inline splits
+                40 => mk("stale-resolved-witness", vec![conn(m11), lex(first.clone()), Op::Resolve, lex(vec![comp("あああ", &["あ", "あ", "あ"])])]),
+                41 => mk("stale-resolved-resolve-first", vec![conn(m11), Op::Resolve, lex(first.clone())]),
+                42 => mk("stale-resolved-plain-then-inline", vec![conn(m11), lex(vec![row("あ", 0, 0)]), Op::Resolve, lex(vec![comp("ああ", &["あ", "あ"])])]),
+                43 => mk("multi-resolved-then-plain", vec![conn(m11), lex(first.clone()), Op::Resolve, lex(vec![row("い", 0, 0)])]),
+                44 => { let mut c = mk("multi-resolve-after-each", vec![conn(m11), lex(first.clone()), Op::Resolve, lex(vec![comp("あああ", &["あ", "あ", "あ"])]), Op::Resolve]); c.ks = Some(vec![]); c }
+                45 => mk("multi-forward-inline", vec![conn(m11), lex(vec![row("あ", 0, 0), comp("あい", &["あ", "い"])]), lex(vec![row("い", 0, 0)]), Op::Resolve]),
+                46 => mk("multi-forward-inline-early-resolve", vec![conn(m11), lex(vec![row("あ", 0, 0), comp("あい", &["あ", "い"])]), Op::Resolve, lex(vec![row("い", 0, 0)]), Op::Resolve]),
+                47 => mk("conn-after-lexicon", vec![lex(vec![row("あ", 1, 1)]), conn(m11), Op::Resolve]),
+                48 => mk("conn-twice-shrinks", vec![conn(m22), lex(vec![row("あ", 1, 1)]), conn(m11), Op::Resolve]),
+                49 => mk("conn-twice-grows", vec![conn(m11), lex(vec![row("あ", 1, 1)]), conn(m22), Op::Resolve]),
+                50 => mk("resolve-twice", vec![conn(m11), lex(first.clone()), Op::Resolve, Op::Resolve]),
+                51 => mk("no-lexicon", vec![conn(m11)]),
+                52 => {
+                    let sys_inl = "東京都,名詞,普通名詞,一般,*,*,*,トウキョウト/都,名詞,普通名詞,一般,*,*,*,ト";
+                    let mut a = row("東京都庁", 0, 0); a[14] = "C".into(); a[15] = sys_inl.into();
+                    let mut b = row("東京都都", 0, 0); b[14] = "C".into(); b[15] = sys_inl.into();
+                    let mut c = mk("user-stale-resolved", vec![lex(vec![a]), Op::Resolve, lex(vec![b])]); c.user = true; c
+                }
+                53 => {
+                    let mut b = row("大阪府", 1, 2); b[14] = "C".into(); b[15] = format!("{}/U1", inl("大阪"));
+                    let mut c = mk("user-multi-part", vec![lex(vec![row("大阪", 0, 0), row("府", 1, 1)]), Op::Resolve, lex(vec![b]), Op::Resolve]); c.user = true; c
+                }
+                54 => mk("empty-part-then-resolve", vec![conn(m11), Op::Lex(vec![]), Op::Resolve, lex(first.clone())]),
+                // read_conn on a user-dictionary builder replaces the sizes of the system matrix the ids are validated against
+                56 => { let mut c = mk("user-read-conn", vec![conn("9 9\n"), lex(vec![row("大阪", 5, 5)]), Op::Resolve]); c.user = true; c }
+                57 => { let mut c = mk("user-read-conn-in-range", vec![conn("9 9\n"), lex(vec![row("大阪", 1, 2)]), Op::Resolve]); c.user = true; c }
+                _ => { let mut c = base("compile-twice", m22, two.clone()); c.twice = true; c }
+            }
+        }
         _ => return None,
     })
 }
-const DIRECTED: usize = 40;
+const DIRECTED: usize = 58;
+
+fn inline_of(q: &Row) -> String {
+    format!("{},{},{},{},{},{},{},{}", q[0], q[5], q[6], q[7], q[8], q[9], q[10], q[11])
+}
+
+/// a lexicon read in 1-3 parts (`read_lexicon` calls) with `resolve()` after none / some / all of
+/// them; compound rows refer to rows of earlier, the same and later parts by inline splits and by
+/// word ids; `read_conn` first, late or twice
+fn gen_multipart(rng: &mut Rng) -> Case {
+    let user = rng.chance(1, 4);
+    let square = rng.chance(11, 12);
+    let nl = rng.range(1, 5);
+    let nr = if square { nl } else { rng.range(1, 5) };
+    let (unl, unr) = if user { (SYS_N, SYS_N) } else { (nl, nr) };
+    let nparts = rng.range(1, 3);
+    let nbase = rng.range(1, 6);
+    let mut base: Vec<Row> = (0..nbase).map(|_| valid_row(rng, unl, unr)).collect();
+    if base.iter().all(|r| r[1].starts_with('-')) { base[0][1] = "0".into(); base[0][2] = "0".into(); }
+    // the part of every base row (non-decreasing), the compounds and the part they are appended to
+    let mut part_of: Vec<usize> = (0..nbase).map(|_| rng.below(nparts)).collect();
+    part_of.sort();
+    let ncomp = rng.below(4);
+    let comps: Vec<(usize, Vec<usize>, usize)> = (0..ncomp).map(|_| {
+        let k = rng.range(2, 3);
+        (rng.below(nparts), (0..k).map(|_| rng.below(nbase)).collect(), rng.below(6))
+    }).collect();
+    // global index of every base row in the concatenation of the parts
+    let mut gidx = vec![0usize; nbase];
+    let mut g = 0;
+    for p in 0..nparts {
+        for i in 0..nbase { if part_of[i] == p { gidx[i] = g; g += 1; } }
+        g += comps.iter().filter(|c| c.0 == p).count();
+    }
+    let total = g;
+    if !user {
+        for i in 0..nbase { if rng.chance(1, 8) { base[i][13] = rng.below(total).to_string(); } }
+    }
+    let mut parts: Vec<Vec<Row>> = vec![vec![]; nparts];
+    for p in 0..nparts {
+        for i in 0..nbase { if part_of[i] == p { parts[p].push(base[i].clone()); } }
+        for (tp, units, style) in &comps {
+            if *tp != p { continue; }
+            let surface: String = units.iter().map(|&i| base[i][0].clone()).collect();
+            let mut r = valid_row(rng, unl, unr);
+            r[0] = surface.clone(); r[4] = surface.clone(); r[11] = surface.clone(); r[12] = surface;
+            r[14] = (*rng.pick(&["C", "C", "B"])).to_string();
+            let ids = join(units.iter().map(|&i| if user { format!("U{}", gidx[i]) } else { gidx[i].to_string() }), "/");
+            let inl = join(units.iter().map(|&i| {
+                let mut q = base[i].clone();
+                if rng.chance(1, 14) { q[11] = "ゼ".into(); }
+                inline_of(&q)
+            }), "/");
+            let mixed = join(units.iter().enumerate().map(|(j, &i)| if j % 2 == 0 { inline_of(&base[i]) } else if user { format!("U{}", gidx[i]) } else { gidx[i].to_string() }), "/");
+            match style {
+                0 => { r[15] = ids; }
+                1 => { r[15] = inl; }
+                2 => { r[15] = inl; r[16] = ids.clone(); r[17] = ids; }
+                3 => { r[15] = mixed; }
+                4 => { r[16] = inl; }
+                _ => { r[15] = inl.clone(); r[16] = inl; }
+            }
+            parts[p].push(r);
+        }
+    }
+    let mut tag = format!("multi{}", nparts);
+    if rng.chance(1, 6) {
+        let p = rng.below(nparts);
+        tag.push(':');
+        tag.push_str(malform_rows(rng, &mut parts[p], unl, unr));
+    }
+    // resolve() after which parts
+    let pattern = rng.below(20);
+    let after: Vec<bool> = (0..nparts).map(|p| match pattern {
+        0..=5 => p + 1 == nparts,
+        6..=9 => true,
+        10..=11 => false,
+        12..=16 => rng.chance(1, 2),
+        _ => p + 1 != nparts,
+    }).collect();
+    let mut ops: Vec<Op> = vec![];
+    if rng.chance(1, 10) { ops.push(Op::Resolve); }
+    for p in 0..nparts {
+        ops.push(Op::Lex(csv_bytes(&parts[p])));
+        if after[p] { ops.push(Op::Resolve); }
+    }
+    if rng.chance(1, 12) { ops.push(Op::Resolve); }
+    if user && rng.chance(1, 8) {
+        // a matrix read by a user-dictionary builder (larger than the system's, or the same size)
+        let k = if rng.chance(1, 2) { SYS_N } else { SYS_N + 2 };
+        let at = rng.below(ops.len() + 1);
+        ops.insert(at, Op::Conn(matrix_text(k, k, rng).into_bytes()));
+        if k > SYS_N && rng.chance(1, 2) {
+            // ... and a row that only fits the larger one
+            let mut r = valid_row(rng, k, k);
+            r[0] = "阪".into(); r[4] = "阪".into(); r[11] = "阪".into(); r[12] = "阪".into();
+            r[1] = (k - 1).to_string(); r[2] = (k - 1).to_string();
+            ops.push(Op::Lex(csv_bytes(&[r])));
+        }
+    }
+    if !user {
+        let m = Op::Conn(matrix_text(nl, nr, rng).into_bytes());
+        match rng.below(20) {
+            0 | 1 => { let at = 1 + rng.below(ops.len()); ops.insert(at, m); }
+            2 => { ops.insert(0, Op::Conn(matrix_text(nl + 1, nr + 1, rng).into_bytes())); let at = 1 + rng.below(ops.len()); ops.insert(at, m); }
+            _ => { ops.insert(0, m); }
+        }
+    }
+    Case {
+        conn: None, csv: vec![], resolve: false, ops: Some(ops), desc: "verif".into(), user,
+        ks: if rng.chance(1, 5) { Some(vec![usize::MAX]) } else { None }, twice: rng.chance(1, 4), tag,
+    }
+}
 
 fn gen_case(rng: &mut Rng, idx: usize) -> Case {
     if let Some(c) = directed(idx) { return c; }
-    let kind = rng.below(100);
+    let kind = rng.below(108);
+    if kind >= 100 { return gen_multipart(rng); }
     let square = rng.chance(11, 12);
     let nl = rng.range(1, 5);
     let nr = if square { nl } else { rng.range(1, 5) };
@@ -840,6 +1068,7 @@ fn gen_case(rng: &mut Rng, idx: usize) -> Case {
     let mut resolve = true;
     let mut desc = "verif".to_string();
     let mut csv: Option<Vec<u8>> = None;
+    let twice = kind >= 78 && kind < 100 && idx % 3 == 0;
     if kind < 45 {
         let k = if rng.chance(1, 5) { 2 } else { 1 };
         for _ in 0..k { tag.push_str(malform_rows(rng, &mut rows, unl, unr)); tag.push('+'); }
@@ -857,7 +1086,7 @@ fn gen_case(rng: &mut Rng, idx: usize) -> Case {
         mutate_bytes(rng, &mut b);
         let n = rng.range(0, 40);
         let c = if rng.chance(1, 3) { (0..n).map(|_| rng.below(256) as u8).collect() } else { b };
-        return Case { conn: Some(c), csv: csv_bytes(&rows), resolve, desc, user: false, ks: None, tag: "matrix-bytes".into() };
+        return Case { conn: Some(c), csv: csv_bytes(&rows), resolve, ops: None, desc, user: false, ks: None, twice: false, tag: "matrix-bytes".into() };
     } else if kind < 78 {
         let n = rng.range(0, 60);
         csv = Some((0..n).map(|_| if rng.chance(1, 3) { *rng.pick(&[b',', b'"', b'\n', b'0', b'*', b'A']) } else { rng.below(256) as u8 }).collect());
@@ -883,7 +1112,7 @@ fn gen_case(rng: &mut Rng, idx: usize) -> Case {
     Case {
         conn: if user { None } else { Some(conn.into_bytes()) },
         csv: csv.unwrap_or_else(|| csv_bytes(&rows)),
-        resolve, desc, user, ks, tag,
+        resolve, ops: None, desc, user, ks, twice, tag,
     }
 }
 
@@ -895,11 +1124,15 @@ fn show_out(o: &Out, bin: Option<&BinDict>) -> String {
             Some(d) => format!("ok len={} res={} words={} pos={} dims={}x{}", len, res, d.infos.len(), d.pos.len(), d.nl, d.nr),
             None => format!("ok len={} res={} words=? pos=? dims=?", len, res),
         },
-        Out::Err { stage, kind, line } => match line {
-            Some(l) if kind != "Io" => format!("err:{}:{}@{}", kind, l, stage),
-            _ => format!("err:{}@{}", kind, stage),
-        },
-        Out::Panic { stage, .. } => format!("PANIC@{}", stage),
+        Out::Err { stage, at, kind, line } => {
+            // a failure before `compile` names the position of the failing call
+            let pos = if *stage == "compile" { String::new() } else { format!("#{}", at) };
+            match line {
+                Some(l) if kind != "Io" => format!("err:{}:{}@{}{}", kind, l, stage, pos),
+                _ => format!("err:{}@{}{}", kind, stage, pos),
+            }
+        }
+        Out::Panic { stage, at, .. } => if *stage == "compile" { format!("PANIC@{}", stage) } else { format!("PANIC@{}#{}", stage, at) },
     }
 }
 
@@ -943,16 +1176,20 @@ pub fn run(run: &mut Run) {
 arity, every field with boundary/non-numeric/negative/over-long/escaped/NUL values, ids at n-1/n/n+1, dangling and U references, inline \
 splits, 127/128 arrays and homographs), of the matrix text (empty, blank, header and line arity, coordinates at and beyond the size, \
 negative, CRLF/tabs/Unicode spaces, invalid UTF-8), byte-level mutations and random bytes through the real csv reader, user dictionaries \
-over a fixed system dictionary, pipeline variations (resolve skipped, description length); sink failures at every offset (small) or at \
+over a fixed system dictionary, pipeline variations (resolve skipped, description length; the lexicon read in 1-3 parts with resolve() \
+after none/some/all of them and before the first, compound rows referring to rows of earlier/the same/later parts by inline splits and \
+ids, read_conn late or twice, compile called twice; system and user dictionaries); sink failures at every offset (small) or at \
 every write boundary +-1 and random offsets; non-trivial = the case reaches a stage after reading (resolve/compile) or fails with a \
 build error other than the generic arity error; distinct by case line".into();
     let variant = probe_variant();
+    let rf = probe_resolved_flag();
     run.extra.insert("variant_d1_d5".into(), serde_json::json!(variant));
+    run.extra.insert("variant_resolved_flag".into(), serde_json::json!(rf));
     let wd = Workdir::new("c06");
     let cfg = oov_cfg(&wd);
     // fixed system dictionary for the user-dictionary cases
     let sys = {
-        let mut c = Case { conn: Some(sys_matrix().into_bytes()), csv: sys_csv().into_bytes(), resolve: true, desc: "sys".into(), user: false, ks: None, tag: "sys".into() };
+        let mut c = Case { conn: Some(sys_matrix().into_bytes()), csv: sys_csv().into_bytes(), resolve: true, ops: None, desc: "sys".into(), user: false, ks: None, twice: false, tag: "sys".into() };
         c.resolve = true;
         match run_pipeline(&c, None, None) {
             Out::Ok { bytes, .. } => match load(&cfg, bytes.clone(), vec![]) {
@@ -978,7 +1215,19 @@ build error other than the generic arity error; distinct by case line".into();
 
         // the real implementation, unlimited sink
         let out = run_pipeline(&case, sysdic, None);
-        let recs = split_csv(&case.csv);
+        let ops = case.ops();
+        let per_op: Vec<Option<Recs>> = ops.iter().map(|o| match o { Op::Lex(d) => Some(split_csv(d)), _ => None }).collect();
+        // the records of all lexicon parts in order (= the entries of the builder when every call succeeded)
+        let recs = {
+            let mut all = Recs { recs: vec![], lines: vec![], csverr: None };
+            for r in per_op.iter().flatten() {
+                all.recs.extend(r.recs.iter().cloned());
+                all.lines.extend(r.lines.iter().cloned());
+                if all.csverr.is_none() { all.csverr = r.csverr; }
+            }
+            all
+        };
+        let first_conn: Option<Vec<u8>> = ops.iter().find_map(|o| match o { Op::Conn(m) => Some(m.clone()), _ => None });
         let bin = match &out { Out::Ok { bytes, .. } => read_bin(bytes).ok(), _ => None };
         let trie_len = bin.as_ref().map_or(0, |b| b.trie_len);
 
@@ -1012,16 +1261,20 @@ build error other than the generic arity error; distinct by case line".into();
         for r in &recs.recs { for f in r.iter().skip(15).take(2) { for ch in f.chars() { if !ch.is_ascii_digit() && is_nd(ch) { nd.push(ch as u32); } } } }
         nd.sort();
         nd.dedup();
-        let recs_tok = recs.recs.iter().map(|r| r.iter().map(|f| hexs(f)).collect::<Vec<_>>().join(":")).collect::<Vec<_>>().join(";");
+        let ops_tok = ops.iter().zip(&per_op).map(|(o, r)| match (o, r) {
+            (Op::Conn(m), _) => format!("C{}", hex(m)),
+            (Op::Resolve, _) => "R".to_string(),
+            (Op::Lex(_), Some(r)) => format!("L{}!{}!{}", r.csverr.map_or("-".to_string(), |l| l.to_string()), join(r.lines.iter(), ","),
+                r.recs.iter().map(|x| x.iter().map(|f| hexs(f)).collect::<Vec<_>>().join(":")).collect::<Vec<_>>().join(";")),
+            (Op::Lex(_), None) => "L-!!".to_string(),
+        }).collect::<Vec<_>>().join("|");
         let (user_tok, upos, usys) = match sysd {
             Some(s) => (format!("{},{},{}", SYS_ROWS.len(), SYS_N, SYS_N), s.upos.clone(), s.usys.clone()),
             None => ("-".to_string(), String::new(), String::new()),
         };
         let payload = format!(
-            "v={} nd={} user={} upos={} usys={} conn={} recs={} lines={} csverr={} resolve={} desc={} trie={} ks={}",
-            variant, join(nd.iter(), ","), user_tok, upos, usys,
-            case.conn.as_ref().map_or("-".to_string(), |c| hex(c)), recs_tok, join(recs.lines.iter(), ","),
-            recs.csverr.map_or("-".to_string(), |l| l.to_string()), if case.resolve { 1 } else { 0 }, case.desc.len(), trie_len, ks_token
+            "v={} rf={} nd={} user={} upos={} usys={} ops={} desc={} trie={} ks={}",
+            variant, rf, join(nd.iter(), ","), user_tok, upos, usys, ops_tok, case.desc.len(), trie_len, ks_token
         );
 
         // canonical answer: a key with a NUL byte handed to the trie builder is outside the
@@ -1048,22 +1301,38 @@ build error other than the generic arity error; distinct by case line".into();
         }
         if case.user { run.bump("user-dictionary"); }
         if recs.csverr.is_some() { run.bump("csv-reader-error"); }
+        if case.ops.is_some() {
+            run.bump(&format!("calls:{}", ops.iter().map(|o| match o { Op::Conn(_) => 'C', Op::Lex(_) => 'L', Op::Resolve => 'R' }).collect::<String>()));
+        }
+        if case.twice && matches!(out, Out::Ok { .. }) { run.bump("compiled-twice"); }
         run.bump_by("sink-faults", ks.len() as u64);
         if ks_token == "all" { run.bump("sink-exhaustive"); }
 
         // ---------------- oracle 1: totality
-        if let Out::Panic { stage, msg } = &out {
+        // the builder's `resolved` flag is stale at `compile`: some resolve() was called, and a
+        // read_lexicon after the last one brought a row with an inline split (judged from the input)
+        let stale_flag = match ops.iter().rposition(|o| matches!(o, Op::Resolve)) {
+            Some(r) => per_op[r + 1..].iter().flatten().any(|p| p.recs.iter().any(|x| x.iter().skip(15).take(2).any(|f| has_inline_unit(f)))),
+            None => false,
+        };
+        if stale_flag { run.bump("stale-flag-shape"); }
+        if let Out::Panic { stage, at, msg } = &out {
             let class = match *stage {
                 "conn" => {
-                    let m = case.conn.clone().unwrap_or_default();
+                    let m = match ops.get(*at) { Some(Op::Conn(m)) => m.clone(), _ => vec![] };
                     if blank_text(&m) { "empty-text" } else if conn_has_bad_coord(&m) { "coord-out-of-range" } else { "other" }
                 }
                 "compile" => {
-                    if !any_indexable { "no-indexable-row" } else if nul_indexed { "nul-in-surface" } else { "other" }
+                    if stale_flag { "stale-resolved-flag" } else if !any_indexable { "no-indexable-row" } else if nul_indexed { "nul-in-surface" } else { "other" }
                 }
                 _ => "other",
             };
             run.fail(idx, &format!("panic:{}:{}", stage, class), &format!("compilation panicked in stage {} ({}): {}", stage, case.tag, msg.chars().take(160).collect::<String>()));
+        }
+
+        // ---------------- oracle 1b: `compile` does not consume the builder: a second call writes the same bytes
+        if let Out::Ok { again: Some(what), .. } = &out {
+            run.fail(idx, "valid:compile-not-repeatable", what);
         }
 
         // ---------------- oracle 2: a sink failure is never success, never a panic
@@ -1100,12 +1369,12 @@ build error other than the generic arity error; distinct by case line".into();
 
         // ---------------- oracle 3: success => valid dictionary, loads, analyses
         if let Out::Ok { bytes, .. } = &out {
-            validity(run, idx, &case, bytes, bin.as_ref(), &recs, sysd, &cfg, &mut rng, nul_indexed);
+            validity(run, idx, &case, first_conn.is_some(), bytes, bin.as_ref(), &recs, sysd, &cfg, &mut rng, nul_indexed);
         }
     }
 }
 
-fn validity(run: &mut Run, idx: usize, case: &Case, bytes: &[u8], bin: Option<&BinDict>, recs: &Recs, sysd: Option<&SysDict>, cfg: &str, rng: &mut Rng, nul_indexed: bool) {
+fn validity(run: &mut Run, idx: usize, case: &Case, has_conn: bool, bytes: &[u8], bin: Option<&BinDict>, recs: &Recs, sysd: Option<&SysDict>, cfg: &str, rng: &mut Rng, nul_indexed: bool) {
     let d = match bin {
         Some(d) => d,
         None => {
@@ -1120,7 +1389,10 @@ fn validity(run: &mut Run, idx: usize, case: &Case, bytes: &[u8], bin: Option<&B
     let (nl, nr) = if user { (SYS_N as i64, SYS_N as i64) } else { (d.nl as i64, d.nr as i64) };
     let n_pos = if user { SYS_POS.len() + d.pos.len() } else { d.pos.len() };
     let mut d3 = false;
-    let no_matrix = !user && case.conn.is_none();
+    let no_matrix = !user && !has_conn;
+    // a user-dictionary builder on which read_conn was called
+    let user_conn = user && has_conn;
+    let mut user_conn_bad = false;
     let mut nonsquare_bad = false;
     let mut dicform_user = false;
     // (1) connection ids of indexed entries
@@ -1132,6 +1404,9 @@ fn validity(run: &mut Run, idx: usize, case: &Case, bytes: &[u8], bin: Option<&B
             run.fail(idx, "valid:right-id-negative", &format!("entry {} is indexed (left id {}) with right id {}: read back as {} at analysis", i, l, r, r as i16 as u16));
         } else if (l >= nl || r >= nr) && no_matrix {
             run.fail(idx, "valid:conn-id-range:no-matrix-read", &format!("entry {}: ids ({}, {}) but no matrix was read: a 0x0 matrix is written and the ids are validated against i16::MAX", i, l, r));
+        } else if (l >= nl || r >= nr) && user_conn {
+            user_conn_bad = true;
+            run.fail(idx, "valid:conn-id-range:user-matrix-read", &format!("user-dictionary entry {}: ids ({}, {}) are outside the {}x{} matrix of the system dictionary: read_conn on the user builder replaced the sizes the ids are validated against by {}x{}", i, l, r, nl, nr, d.nl, d.nr));
         } else if l >= nl || r >= nr {
             run.fail(idx, "valid:conn-id-range", &format!("entry {}: ids ({}, {}) outside the {}x{} matrix", i, l, r, nl, nr));
         } else if r >= nl || l >= nr {
@@ -1264,7 +1539,7 @@ fn validity(run: &mut Run, idx: usize, case: &Case, bytes: &[u8], bin: Option<&B
         for m in [Mode::A, Mode::B, Mode::C] {
             analysed += 1;
             let r = tokenize(&dic, t, m);
-            let class = if no_matrix { "no-matrix-read" } else if nonsquare_bad { "nonsquare-matrix" } else if d3 { "right-id-negative" } else if dicform_user { "userdict-dicform" }
+            let class = if no_matrix { "no-matrix-read" } else if user_conn_bad { "user-matrix-read" } else if nonsquare_bad { "nonsquare-matrix" } else if d3 { "right-id-negative" } else if dicform_user { "userdict-dicform" }
                 else if illformed_split { "ill-formed-split" } else if nul_indexed { "nul-in-surface" } else { "other" };
             let (key, what) = match r {
                 Ok(Ok(toks)) => {
